@@ -287,6 +287,8 @@ def main(argv: Optional[List[str]] = None) -> int:
         return 0
 
     t0 = time.monotonic()
+    import shutil as _sh
+    _sh.rmtree(os.path.join(ROOT, "out", "replays", prop_id), ignore_errors=True)
     nshards = getattr(mod, "SHARDS", {}).get(args.tier, 1)
     if nshards <= 1:
         merged = _merge([run_shard_inproc(prop_id, args.tier, args.seed, (0, 1), budget)])
